@@ -2,7 +2,7 @@
 
 Real code driven: Rvectors.set_Rvec (MDRS replica selection), set_fft_q_to_R, q_to_R (both FFT
 libraries, also the select_left/right path), conj_XX_R, R_to_k (k-list and FFT box = mesh),
-System_R.do_ws_dist.  Oracles: explicit Fourier sum at every mesh point (harness), harness-side
+System_R.do_ws_dist, and end-to-end synthetic Wannier90 data -> wannierise -> get_system_w90.  Oracles: explicit Fourier sum at every mesh point (harness), harness-side
 X(-R)=X(R)^dagger test, replica-weight conservation recomputed from the recorded replica lists,
 and a brute-force Wigner-Seitz minimal-distance test with a larger search range.
 """
@@ -27,8 +27,61 @@ def herm_q(rng, nq, nw, cart):
     return 0.5 * (X + np.conj(np.swapaxes(X, 1, 2)))
 
 
+def case_w90(ctx, rng, idx):
+    """end-to-end: synthetic Wannier90 data (random ab-initio model on a shuffled mesh) -> wannierise -> System_R (get_system_w90 with MDRS):
+    the interpolated bands at the mesh points must be the ab-initio eigenvalues (all of them for num_wann = num_bands, the frozen ones
+    otherwise), and the real-space matrices must obey X(-R) = X(R)^dagger"""
+    from vlib import gen_w90
+    from wannierberri.system import System_R
+    mp = gen_w90.MP_GRIDS[int(rng.integers(len(gen_w90.MP_GRIDS)))]
+    NB = int(rng.integers(2, 7))
+    full = rng.random() < 0.5
+    NW = NB if full else int(rng.integers(1, NB))
+    try:
+        syn = gen_w90.synthetic_w90(rng, mp_grid=mp, NB=NB, NW=NW, amn_kind="lowbands" if not full else None)
+    except RuntimeError:
+        raise harness.Skip("b-vector search failed for the synthetic lattice")
+    wd = syn.wandata(with_chk=False)
+    E = np.sort(syn.E, axis=1)
+    wit = dict(part="w90", mp_grid=mp, NB=NB, NW=NW, NK=syn.NK)
+    if full:
+        wd.wannierise(init="amn", num_iter=int(rng.integers(0, 20)), froz_min=-np.inf, froz_max=np.inf, print_progress_every=10 ** 6)
+        nfroz = NB
+    else:
+        # freeze the lowest bands that are separated from the rest at every mesh point by a clear gap
+        nfroz = None
+        for n in range(NW, 0, -1):
+            if E[:, n - 1].max() + 0.05 < E[:, n].min():
+                nfroz = n
+                break
+        if nfroz is None:
+            raise harness.Skip("no global gap below num_wann bands for a frozen window")
+        fmax = 0.5 * (E[:, nfroz - 1].max() + E[:, nfroz].min())
+        wd.wannierise(init="amn", num_iter=int(rng.integers(5, 30)), froz_min=-np.inf, froz_max=fmax, print_progress_every=10 ** 6)
+    system = System_R.from_wannierdata(wd, berry=bool(rng.random() < 0.5))
+    Ei = gen_systems.bands(system, syn.kpt_red)
+    ctx.close("get_system_w90:interpolated_bands_on_mesh!=ab_initio", np.sort(Ei, axis=1)[:, :nfroz], E[:, :nfroz], rtol=1e-9, scale=np.abs(E).max(),
+              what="bands on the mesh", witness=wit)
+    iR = system.rvec.iRvec
+    index = {tuple(R): i for i, R in enumerate(iR.tolist())}
+    for key in [kk for kk in ("Ham", "AA") if system.has_R_mat(kk)]:
+        X = system.get_R_mat(key)
+        ctx.ev()
+        if any(tuple(-x for x in R) not in index for R in index):
+            ctx.violation("get_system_w90:R_set_not_closed_under_-R", key, wit)
+            continue
+        Xc = np.array([np.conj(np.swapaxes(X[index[tuple(-x for x in R)]], 0, 1)) for R in iR.tolist()])
+        ctx.close("get_system_w90:X(-R)!=X(R)^dagger", Xc, X, rtol=1e-10, scale=np.abs(X).max(), what=key, witness=wit)
+    ctx.count("w90_end_to_end_cases")
+    ctx.count("w90_disentangled_cases", int(not full))
+    ctx.nontrivial(("w90", tuple(mp), NB, NW, nfroz))
+    ctx.sample(wit)
+
+
 def case(ctx, rng, idx, state):
     from wannierberri.fourier.rvectors import Rvectors
+    if idx % 5 == 4:
+        return case_w90(ctx, rng, idx)
 
     # ---------------- input -------------------------------------------------------------
     if rng.random() < 0.6:
@@ -206,5 +259,5 @@ if __name__ == "__main__":
              "negative legacy mode, scalar/vector/rank-2 Hermitian data; non-trivial = at least one replica with Ndegen>1 or centres outside the home cell",
         assumptions=["oracle = explicit Fourier sum in plain numpy; brute-force Wigner-Seitz search over +-5 supercells around -(t_b-t_a) judged only for supercell cond<=6",
                      "R<->-R symmetry of the replica sets judged only for supercell cond<=12 (the code's fixed +-3 search is not symmetric on extremely skewed supercells)"],
-        required_counters=("boundary_replicas_seen", "do_ws_dist", "ws_bruteforce_cases"),
+        required_counters=("boundary_replicas_seen", "do_ws_dist", "ws_bruteforce_cases", "w90_end_to_end_cases", "w90_disentangled_cases"),
     )
